@@ -75,6 +75,24 @@
 (*    (value = ticks / scale, scale a power of two, so that the floating   *)
 (*    point of the real function is exact on the enumerated domain).       *)
 (*                                                                         *)
+(* DEVIATIONS OF THE CODE FOUND WITH THIS SPECIFICATION (Dev_* below)      *)
+(* D-X01-1 Dev_LastFieldExclusive: sdss_astrombad treats lastfield as the  *)
+(*    first good field (field < lastfield); the column is the LAST bad      *)
+(*    field (IDL original: field le lastfield), so single-field rows        *)
+(*    (firstfield = lastfield) never match.                                 *)
+(* D-X01-2 Dev_FooSentinel: filternum('foo') returns [0..4] although 'foo'  *)
+(*    is not a filter name (docstring: KeyError).                           *)
+(* D-X01-3 Dev_WidePlateCrash: latest_mjd of a plate >= 10000 that has      *)
+(*    spPlate files raises AttributeError.                                  *)
+(*                                                                         *)
+(* LEFT OPEN (documentation silent): findspec (needs plate lists and       *)
+(* spPlate data; not exercised), sdss_path('reObj'), filternum(number),    *)
+(* filtername(k) for k outside 0..4, unset PHOTO_* roots, default topdir   *)
+(* of spec_path for an all-digit run2d, latest_mjd for a plate without     *)
+(* files, wavevector bounds below the grid origin and off the grid,        *)
+(* numpy scalars / mixed scalar-array arguments of sdss_astrombad, the     *)
+(* download branch (PHOTOLOG_DIR unset).                                   *)
+(*                                                                         *)
 (* MODEL.  A string is a sequence of one-character strings; Chars turns a  *)
 (* TLA+ string literal into that form and Text back (TLC only prints and   *)
 (* compares the result).  A call is [fn, a]; Expected(fn, a) is            *)
